@@ -161,7 +161,7 @@ func c09Concurrent(c *ev.Collector, t *testing.T) {
 // ---- C10 ----
 
 func c10Concurrent(c *ev.Collector, t *testing.T) {
-	iters := ev.Scale(3000, 8000)
+	iters := ev.Scale(1500, 8000)
 	const nEph = 4
 	err := concurrently(iters, func(g int) func(int) error {
 		d := concDRBG("C10", g)
